@@ -1,6 +1,7 @@
 import QuiverModel.Lemmas.Sys.Faithful
 import QuiverModel.Lemmas.Sys.Stored
 import QuiverModel.Lemmas.Sys.Live
+import QuiverModel.Lemmas.Sys.Dead
 /-
 C04 — Messages: exactly-once, per-sender FIFO, and no lost wake-ups.
 
@@ -392,6 +393,26 @@ example :
     (@reach { exitReports := false } 2 exProg 1 [.worker 0 100 5 [] [], .env [100, 100], .worker 1 100 5 [] [], .worker 1 100 5 [] []]).evtQ 1 =
       [.deliver 0 { src := 1, tag := 1, seq := 0 }] := by decide
 
+/-- main: `c = @{}, 7 c, ! [50]` — the child finishes at once, the message reaches it afterwards -/
+def deadProg : Prog := [[.spawn 1 [], .send 1 7 0, .select [.timeout 50]], []]
+
+def deadCs : List Choice :=
+  [.worker 0 100 5 [] [], .env [100, 100], .worker 0 100 5 [] [], .worker 1 100 5 [] [], .env [100, 100],
+   .worker 0 100 5 [] [], .worker 1 100 5 [] [], .env [100, 100], .worker 0 100 5 [] [], .worker 1 100 5 [] [],
+   .env [100, 100], .worker 1 100 5 [] [], .worker 0 100 5 [] []]
+
+/-- variant `releaseDead` (notes/C06-fixes/01): a message that reaches a process which has already
+finished (and is not persistent) is handled — counted in `appended` — but not stored: the mailbox
+stays empty and the message is listed in `deadDropped`.  Without the variant (HEAD) the same run puts
+it into the dead process's mailbox, where nobody reads it. -/
+example :
+    (let s := @reach { releaseDead := true } 2 deadProg 1 deadCs
+     (s.sent.length, s.appended.length, s.deadDropped.length, ((s.wk 1).procs 1).map (·.mailbox.length),
+       ((s.wk 1).procs 1).map (·.result.isSome))) = (1, 1, 1, some 0, some true) ∧
+    (let s := @reach { releaseDead := false } 2 deadProg 1 deadCs
+     (s.sent.length, s.appended.length, s.deadDropped.length, ((s.wk 1).procs 1).map (·.mailbox.length),
+       ((s.wk 1).procs 1).map (·.result.isSome))) = (1, 1, 0, some 1, some true) := by decide
+
 /-- main: `c1 = @{ ! [50] }, c2 = @{ [2,0] me }, ! [c1, #recv], c3 = @{}, ! [c3]` -/
 def staleProg : Prog :=
   [[.spawn 1 [], .spawn 2 [0], .select [.proc 1, .recv .any], .spawn 3 [], .select [.proc 3]],
@@ -508,6 +529,44 @@ theorem stored_results_faithful (n : Nat) (prog : Prog) (req : Nat) (hn : 0 < n)
   · exact ⟨fun w a x t v hx hm => h.core.stored w a x t v hx hm,
            fun w a rs t r hm ht => h.core.updc w a rs t r hm ht,
            fun a pa w rs t r hp hm ht => h.core.pend a pa w rs t r hp hm ht⟩
+
+/-! ### messages to a process that can no longer receive (variant `releaseDead`) -/
+
+/-- The invariant about dropped messages (`XInv`) after every choice sequence. -/
+theorem dead_drop_invariant (n : Nat) (prog : Prog) (req : Nat) (hn : 0 < n) (hwf : ProgWF prog) (cs : List Choice) :
+    PreStart (reach n prog req cs) ∨ XInv (reach n prog req cs) :=
+  invariant_from_init Rules.current XInv (fun _ h => XInv.of_started h) (fun _ m h => h.micro m) n prog req hn hwf cs
+
+/-- With the code at HEAD (variant `releaseDead` off) `notify_message` stores every message it
+handles for a known process: nothing is dropped, `appended` IS the mailbox history. -/
+theorem nothing_dropped_without_variant (n : Nat) (prog : Prog) (req : Nat) (hn : 0 < n) (hwf : ProgWF prog)
+    (cs : List Choice) (hoff : Cfg.releaseDead = false) : (reach n prog req cs).deadDropped = [] := by
+  rcases dead_drop_invariant n prog req hn hwf cs with h | h
+  · exact h.deadDropped
+  · exact h.off hoff
+
+/-- With the variant on, a message that was handled but not stored (`deadDropped`) is one of the
+handled ones (so conservation, exactly-once and FIFO above still count it), and its receiver HAS a
+result on its worker: it had terminated before the message reached it.  C04 speaks of messages sent
+to a LIVE process; these are the others. -/
+theorem dropped_only_for_finished_receiver (n : Nat) (prog : Prog) (req : Nat) (hn : 0 < n) (hwf : ProgWF prog)
+    (cs : List Choice) (t : Pid) (m : Msg) (hm : (t, m) ∈ (reach n prog req cs).deadDropped) :
+    (t, m) ∈ (reach n prog req cs).appended ∧ ∃ w r, ((reach n prog req cs).wk w).resultOf t = some r := by
+  rcases dead_drop_invariant n prog req hn hwf cs with h | h
+  · rw [h.deadDropped] at hm; cases hm
+  · obtain ⟨r, w, hw⟩ := h.fin (t, m) hm
+    exact ⟨h.sub (t, m) hm, w, r, hw⟩
+
+/-- **A live process loses nothing**, whatever the configuration: for a process that has no result
+yet, no message addressed to it was ever dropped — every message `notify_message` handled for it
+(`appended`, which by `delivery_conservation` is exactly what was sent to it and has arrived, in
+per-sender order) went into its mailbox. -/
+theorem live_receiver_loses_nothing (n : Nat) (prog : Prog) (req : Nat) (hn : 0 < n) (hwf : ProgWF prog)
+    (cs : List Choice) (w : Wid) (b : Pid) (x : Proc) (hx : ((reach n prog req cs).wk w).procs b = some x)
+    (hr : x.result = none) (m : Msg) : (b, m) ∉ (reach n prog req cs).deadDropped := by
+  rcases dead_drop_invariant n prog req hn hwf cs with h | h
+  · rw [h.deadDropped]; intro hm; cases hm
+  · exact h.live_lost_nothing hx hr m
 
 /-! ### no process is forgotten by the scheduler -/
 
